@@ -10,7 +10,7 @@ git -C /repo worktree add -q --detach "$wt" HEAD || exit 2
 trap 'git -C /repo worktree remove --force "$wt" 2>/dev/null; rm -rf "$wt" "$out" "$evd"' EXIT
 out=$(mktemp); evd=$(mktemp -d)
 git -C "$wt" apply "$patch" || { echo "patch does not apply"; echo "check-exit=2"; exit 2; }
-(cd /verif && BASANA_REPO="$wt" VERIF_EVIDENCE_DIR="$evd" ./run "$id" "$tier" > "$out" 2>&1); rc=$?
+(cd /verif && BASANA_REPO="$wt" VERIF_EVIDENCE_DIR="$evd" VERIF_STOP_ON_VIOLATION="${VERIF_STOP_ON_VIOLATION-1}" ./run "$id" "$tier" > "$out" 2>&1); rc=$?
 grep -E "VIOLATION|KNOWN-FINDING|HARNESS" "$out" | head -6
 tail -1 "$out" | cut -c1-200
 echo "check-exit=$rc"
